@@ -256,6 +256,8 @@ def run(ctx):
     if len(cl) == 1:
         pi, pc_ = [q.get("name") for q in cl[0]["params"]]
         b_ = strip(cl[0]["body"])
+        if b_["k"] == "Block":           # the predicate may live in a (new, inlined) helper: `{ let copulas = ..; <predicate> }`
+            b_ = strip(hir.last_expr(b_))
         if b_["k"] == "Binary" and b_["op"] in ("&&", "And"):
             l_, r_ = strip(b_["l"]), strip(b_["r"])
             lid = l_["k"] == "Call" and field_path(strip(l_["f"])) is not None and field_path(strip(l_["f"]))[-1] == "is_identifier" and field_path(l_["args"][0]) == (pc_,)
